@@ -3,6 +3,10 @@ package main
 import (
 	"fmt"
 	"math/rand"
+	"strings"
+	"unicode/utf8"
+
+	"github.com/skx/evalfilter/v2/object"
 
 	"verif/internal/eng"
 	"verif/internal/ev"
@@ -133,6 +137,7 @@ func c02(c *ev.Ctx) {
 	})
 	c02ConstantConditions(c)
 	c02ExitHistories(c)
+	c02StringElements(c)
 	// fixed regression / probe cases
 	c02Probes(c)
 }
@@ -353,4 +358,75 @@ func constCondPrograms() []constCondProgram {
 		}
 	}
 	return out
+}
+
+// c02StringElements: foreach over a string visits every character once, in order, whatever
+// the characters are: the replacement character written out, bytes that are not UTF-8
+// (one element each, as len and indexing count them), NUL, characters of four bytes and
+// combining marks -- given as a literal, a variable, a field and a host function result.
+func c02StringElements(c *ev.Ctx) {
+	subjects := []string{"", "a", "a\uFFFDb", "\uFFFD", "\uFFFDxyz", "ab\uFFFD", "\uFFFD\uFFFD", "a\xffb", "\xff\xfe", "x\xe2\x82", "\xe2\x82y", "a\x00b",
+		"\x00", "🦊x", "e\u0301", "狐犬\uFFFD狐", "\uFFFE", "\U0010FFFF!", "\xc0\x80", "\xed\xa0\x80z", "ok\xf0\x9f\xa6", "tab\there\uFFFDnl\n."}
+	for si, s := range subjects {
+		for form := 0; form < 4; form++ {
+			for _, withIdx := range []bool{false, true} {
+				for _, noOpt := range []bool{false, true} {
+					id := fmt.Sprintf("string-elements/%d/%d/%v/%v", si, form, withIdx, noOpt)
+					if !c.Want(id) {
+						continue
+					}
+					src := "S"
+					opt := eng.Options{NoOptimize: noOpt}
+					var obj interface{}
+					switch form {
+					case 0: // literal
+						if !utf8.ValidString(s) || strings.ContainsRune(s, 0) {
+							continue
+						}
+						var lit gast.Expr = gast.StrLit{V: s}
+						src = gast.ExprText(lit)
+					case 1:
+						opt.ObjVars = map[string]object.Object{"S": &object.String{Value: s}}
+					case 2:
+						obj = map[string]interface{}{"S": s}
+					case 3:
+						src = "give()"
+						opt.Funcs = map[string]func(args []object.Object) object.Object{"give": func(args []object.Object) object.Object { return &object.String{Value: s} }}
+					}
+					loop := "foreach ch in " + src
+					call := "t(ch);"
+					if withIdx {
+						loop = "foreach i, ch in " + src
+						call = "t(i, ch);"
+					}
+					script := "n = 0; " + loop + " { " + call + " n = n + 1; } t(\"end\"); return n;"
+					var want []string
+					k := 0
+					for _, r := range s {
+						if withIdx {
+							want = append(want, fmt.Sprintf("t(INTEGER:%d, STRING:%s)", k, string(r)))
+						} else {
+							want = append(want, fmt.Sprintf("t(STRING:%s)", string(r)))
+						}
+						k++
+					}
+					want = append(want, "t(STRING:end)")
+					wantRes := fmt.Sprintf("INTEGER:%d", k)
+					evr, err := eng.New(script, opt)
+					c.Case(id, true)
+					if err != nil {
+						c.Violation(id, "foreach over a string", map[string]interface{}{"summary": fmt.Sprintf("Prepare rejected %q: %v", script, err), "script": script})
+						continue
+					}
+					o := evr.Exec(obj)
+					c.Count("string_elements_expected", k)
+					if o.Desc() != wantRes || strings.Join(o.Trace, "|") != strings.Join(want, "|") {
+						c.Violation(id, "foreach over a string", map[string]interface{}{
+							"summary": fmt.Sprintf("foreach over the string %q (form %d, index %v, noopt %v): result %s %s, visits %q; expected %s, visits %q", s, form, withIdx, noOpt, o.Desc(), errText(o.Err), o.Trace, wantRes, want),
+							"script":  script, "subject": fmt.Sprintf("%q", s)})
+					}
+				}
+			}
+		}
+	}
 }
